@@ -64,6 +64,15 @@ SIM = {
         "rule": "",
         "assumptions": ASSUME_SIM,
     },
+    "C12": {
+        "props": ["C12"],
+        "designs": [],
+        "profiles": [{"p_txn": 0.7, "p_cancel": 0.4, "p_replace": 0.4, "p_update": 0.25, "p_suspend": 0.25, "p_mver": 0.3, "p_trade": 0.85, "p_action": 0.85, "max_orders": 10, "n_strategies": (1, 1), "p_multi_trade": 0.4, "p_removal": 0.06}],
+        "extra": "replace_package",
+        "n_quick": 120, "n_thorough": 3000,
+        "rule": "",
+        "assumptions": ASSUME_SIM,
+    },
     "C18": {
         "props": ["C18"],
         "designs": [{"module": "MC_TxnCount", "constants": {"MaxSteps": "6"}, "invariants": ["Inv_TotalsExact", "Inv_HourlyExact", "Inv_UnlimitedNeverBlocked"], "properties": ["Prop_VerdictExact"], "must_reach": ["Reach_Blocked", "Reach_RestartAfterBlock"]},
